@@ -196,7 +196,25 @@ def run(ctx):
     ra_ = [c for c in A.calls(inc.node) if A.unparse(c.func).endswith(".blockers_refcnt.add")]
     ctx.check("R5", inc, len(ra_) == 1 and not any(isinstance(p, ast.If) for p in A.parents(ra_[0])), "blocker-refcount-unconditional", "every registration of a blocker takes a reference (also when the limiter already exists)",
               "incref_forward_block_op.apply only counts the first registration of a blocker: when a second package with the same blocker is backed out the limiter is removed although the first still needs it", node=ra_[0] if ra_ else inc.node)
-    ctx.floor("R5", 8)
+    # a blocker that hit something is passed over only after asking the plan state again whether it still hits
+    bx = lp[0].target.id if isinstance(lp[0].target, ast.Name) else None
+    hit_ifs = [n for n in lp[0].body if isinstance(n, ast.If) and ab and any(isinstance(x, ast.Name) and x.id in {t.id for st_ in lp[0].body if isinstance(st_, ast.Assign) and st_.value is ab[0] for t in st_.targets if isinstance(t, ast.Name)} for x in ast.walk(n.test))]
+    ctx.require(hit_ifs and bx, "insert_blockers: the `blocker hit something` arm not found")
+    skips = [n for n in ast.walk(hit_ifs[0]) if isinstance(n, ast.Continue)]
+    ctx.check("R5", ib, bool(skips), "hit-blocker-skip-present", "a weak blocker resolved by pulling in another version can be passed over")
+    rechecked = {t.id for n in ast.walk(hit_ifs[0]) if isinstance(n, ast.Assign) and isinstance(n.value, ast.Call) and A.unparse(n.value) == f"self.state.match_atom({bx})"
+                 for t in n.targets if isinstance(t, ast.Name)}
+    for sk in skips:
+        guards = [p for p in A.parents(sk) if isinstance(p, ast.If) and A.contains_node(hit_ifs[0], p)]
+        innermost = guards[0] if guards else None
+        ok = innermost is not None and (A.unparse(innermost.test) == f"not self.state.match_atom({bx})" or (
+            isinstance(innermost.test, ast.UnaryOp) and isinstance(innermost.test.operand, ast.Name) and innermost.test.operand.id in rechecked
+            and any(isinstance(st_, ast.Assign) and A.unparse(st_.value) == f"self.state.match_atom({bx})" and st_.lineno < innermost.lineno and st_.lineno > ab[0].lineno
+                    for p_ in guards[1:2] for st_ in p_.body)))
+        ctx.check("R5", ib, ok, "hit-blocker-rechecked", "a blocker that hit a package is passed over only after state.match_atom(blocker) was asked again and found nothing",
+                  "insert_blockers passes over a blocker that hit a package as soon as another version could be added: if that version went into a different slot the blocked "
+                  "package is still in the plan, and the result contains a package together with one it blocks", node=sk)
+    ctx.floor("R5", 10)
 
 
 def _last_binding_is_pdab(if_stmt, name):
